@@ -351,7 +351,46 @@ def execute(stim):
             circuit = edzed.get_circuit()
             st['circuit'] = circuit
             if any(c['kind'] == 'pplain' for c in blocks):
-                circuit.set_persistent_data({})
+                import collections.abc
+
+                class Storage(collections.abc.MutableMapping):
+                    """a storage back-end; reading the record of a 'readerr' block fails (damaged file):
+                    that is a failure of the state restoration - logged, nothing else"""
+                    def __init__(self):
+                        self.d, self.bad = {}, set()
+
+                    def __getitem__(self, key):
+                        if key in self.bad:
+                            raise RuntimeError('scripted storage read error')
+                        return self.d[key]
+
+                    def __setitem__(self, key, value):
+                        self.bad.discard(key)
+                        self.d[key] = value
+
+                    def __delitem__(self, key):
+                        self.bad.discard(key)
+                        del self.d[key]
+
+                    def __iter__(self):
+                        return iter(self.d)
+
+                    def __len__(self):
+                        return len(self.d)
+
+                    def __contains__(self, key):
+                        return key in self.d
+
+                    def pop(self, key, *default):       # (removing a record does not read it)
+                        self.bad.discard(key)
+                        return self.d.pop(key, *default)
+                sto = Storage()
+                for b_, c_ in enumerate(blocks, 1):
+                    if c_['kind'] == 'pplain' and c_.get('readerr'):
+                        key = f"<PersistentPlainProbe 'b{b_}'>"
+                        sto.d[key] = 1
+                        sto.bad.add(key)
+                circuit.set_persistent_data(sto)
             build(circuit)
             st['loop'], st['t0'] = loop, loop.time()
             if stim.get('pre_abort'):
